@@ -237,6 +237,7 @@ struct Norm<'a> {
     skip_sort: bool,
     subst: Option<(String, String)>,
     strviews: bool,
+    nexton: Option<String>,
     before: Vec<String>,
     pub before_hits: Vec<usize>,
 }
@@ -453,6 +454,24 @@ impl<'a> Norm<'a> {
 
     /// N9 (string views): `&S[a..]` on a `String` and `X.strip_prefix(LIT).unwrap_or(Y)` on `&str` values, only in
     /// functions whose directive says `strviews` (the syntax alone does not tell a text slice from a byte slice)
+    /// N17: `stream.next()` ==> `stream.next_on(&mut SOCK)` in client functions (directive option `nexton=SOCK`): the real
+    /// stream owns `&mut SOCK`; the model's stream does not, so the poll names the socket whose ghost state it updates
+    fn n17_nexton(&mut self, e: &mut Expr) {
+        let Some(sock) = self.nexton.clone() else { return; };
+        if let Expr::MethodCall(mc) = e {
+            if mc.method == "next" && mc.args.is_empty() {
+                if let Expr::Path(p) = &*mc.receiver {
+                    if p.path.is_ident("stream") {
+                        let sk: Expr = syn::parse_str(&sock).unwrap_or_else(|_| die("template", "nexton= is not an expression"));
+                        let r = &mc.receiver;
+                        *e = parse_quote!(#r.next_on(&mut #sk));
+                        self.stats.bump("N17.next_on_socket");
+                    }
+                }
+            }
+        }
+    }
+
     fn n9_strviews(&mut self, e: &mut Expr) {
         if !self.strviews { return; }
         if let Expr::Reference(rf) = e {
@@ -838,6 +857,7 @@ impl<'a> VisitMut for Norm<'a> {
         self.n6(e);
         self.n9(e);
         self.n9_strviews(e);
+        self.n17_nexton(e);
     }
 
     fn visit_path_mut(&mut self, p: &mut syn::Path) {
@@ -914,7 +934,7 @@ impl<'a> VisitMut for Norm<'a> {
 /// Returns the number of loops found (pre-order numbering).
 pub fn normalise(block: &mut syn::Block, opts: &BTreeMap<String, String>, stats: &mut Stats, desc: &str, before: &[String]) -> (usize, Vec<usize>) {
     let deref_idents = opts.get("n3").map(|s| s.split(',').map(|x| x.to_string()).collect()).unwrap_or_default();
-    let mut n = Norm { stats, desc, loops: 0, tmp: 0, closure_args: 0, deref_idents, keep_async: false, yieldctx: opts.get("yieldctx").cloned(), opt_map: opts.contains_key("optmap"), dropnote: opts.get("dropnote").cloned(), selfty: opts.get("selfty").cloned(), skip_sort: false, strviews: opts.contains_key("strviews"), before: before.to_vec(), before_hits: vec![0; before.len()], subst: opts.get("subst").and_then(|v| v.split_once(':').map(|(a, b)| (a.to_string(), b.replace('~', "::")))) };
+    let mut n = Norm { stats, desc, loops: 0, tmp: 0, closure_args: 0, deref_idents, keep_async: false, yieldctx: opts.get("yieldctx").cloned(), opt_map: opts.contains_key("optmap"), dropnote: opts.get("dropnote").cloned(), selfty: opts.get("selfty").cloned(), skip_sort: false, strviews: opts.contains_key("strviews"), nexton: opts.get("nexton").cloned(), before: before.to_vec(), before_hits: vec![0; before.len()], subst: opts.get("subst").and_then(|v| v.split_once(':').map(|(a, b)| (a.to_string(), b.replace('~', "::")))) };
     n.visit_block_mut(block);
     (n.loops, n.before_hits.clone())
 }
